@@ -697,27 +697,51 @@ func newShape(name string, stmts []*Stmt, pv map[string][2]int64) *Shape {
 
 // Generate enumerates the shapes for a tier.
 func Generate(tier string) []*Shape {
+	if tier == "thorough" {
+		// everything the quick tier has, then a fixed sample of programs over sources of
+		// exactly three leaves
+		shapes := Generate("quick")
+		for _, sh := range generate("thorough") {
+			sh.Name = fmt.Sprintf("s%04d", len(shapes))
+			shapes = append(shapes, sh)
+		}
+		return shapes
+	}
+	return generate(tier)
+}
+
+func generate(tier string) []*Shape {
 	var shapes []*Shape
 	add := func(sh *Shape) {
 		sh.Name = fmt.Sprintf("s%04d", len(shapes))
 		shapes = append(shapes, sh)
 	}
 	b := Bounds{MaxLeaves: 2, Depth: 2}
-	if tier == "thorough" {
-		b = Bounds{MaxLeaves: 3, Depth: 2, AllLeafMix: false}
-	}
 	srcs := Sources(b)
+	if tier == "thorough" {
+		// only the sources the quick tier does not have (three leaves)
+		have := map[string]bool{}
+		for _, sm := range srcs {
+			have[sm(&varGen{}).text("")] = true
+		}
+		var extra []srcMaker
+		for _, sm := range Sources(Bounds{MaxLeaves: 3, Depth: 2, AllLeafMix: false}) {
+			if !have[sm(&varGen{}).text("")] {
+				extra = append(extra, sm)
+			}
+		}
+		srcs = extra
+	}
 	dsts := Dests(true)
 	simple := Dests(false)
 
-	// The thorough tier enumerates sources of up to 3 leaves: 11.5k programs when every
-	// source meets every destination. That does not finish within an hour per property,
-	// so classes (1)-(3) keep one combination in six there (a fixed stride, so the set
-	// is the same on every run); the registered bound is that subset.
+	// Three-leaf sources met with every destination are about 11k programs, which does not
+	// finish within an hour per property: the thorough tier keeps one combination in
+	// sixteen (a fixed stride, so the set is the same on every run).
 	pick := 0
 	keep := func() bool {
 		pick++
-		return tier != "thorough" || pick%6 == 0
+		return tier != "thorough" || pick%16 == 0
 	}
 	// (1) every source × the simple destinations, send $m
 	for _, sm := range srcs {
@@ -761,6 +785,9 @@ func Generate(tier string) []*Shape {
 		s := sm(g)
 		d, pv := dsts[i%len(dsts)](g)
 		add(newShape("", []*Stmt{{Kind: "sendall", Asset: "USD/2", Srcs: []*Source{s}, Dst: d}}, pv))
+	}
+	if tier == "thorough" {
+		return shapes // classes (4)-(7) come with the quick part
 	}
 	// (4) allotment sources: portion vectors × small sub-sources
 	small := []srcMaker{
